@@ -16,23 +16,28 @@ theorem step_final {m' : M} {e : Nat} (hf : Final P s m' e) (hsz : m'.caps.size 
       mf.caps = m'.caps.setIfInBounds 0 { (m'.caps[0]?).getD ⟨0, 0⟩ with stop := e } := by
   obtain ⟨hpi, hsi, he, hE, hb⟩ := hf
   unfold step
-  have h1 : ¬ (m'.pi < P.items.size) := by omega
-  have h2 : ¬ (m'.si = -1) := by omega
-  have h3 : (!P.endAnchor || decide (m'.si = (s.size : Int))) = true := by
+  have hc : consumeBudget { m' with steps := m'.steps + 1 } = .ok (tick m') := consumeBudget_zero _ hb
+  simp only [hc, bind, Except.bind]
+  have h1 : ¬ ((tick m').pi < P.items.size) := by rw [tick_pi]; omega
+  have h2 : ¬ ((tick m').si = -1) := by rw [tick_si]; omega
+  have h3 : (!P.endAnchor || decide ((tick m').si = (s.size : Int))) = true := by
     cases hEA : P.endAnchor with
     | false => simp
-    | true => have := hE hEA; simp [hsi, this]
+    | true => have := hE hEA; simp [tick_si, hsi, this]
   simp only [h1, dite_false, h2, if_false, h3, if_true]
-  have hc0 : m'.caps[0]? = some m'.caps[0] := by simp [hsz]
-  simp only [capAt, capSet, hc0, bind, Except.bind, hsz, pure, Except.pure]
-  refine ⟨_, rfl, hb, ?_⟩
-  simp [hsi]
+  have hc0 : (tick m').caps[0]? = some m'.caps[0] := by simp [tick_caps, hsz]
+  have hsz' : (tick m').caps.size = 10 := by rw [tick_caps]; exact hsz
+  simp only [capAt, capSet, hc0, hsz', pure, Except.pure]
+  refine ⟨_, rfl, by simp [tick_budget, hb], ?_⟩
+  simp [tick_caps, tick_si, hsi, hsz]
 
-theorem step_failed {m : M} (hpi : m.pi = P.items.size) (hsi : m.si = -1) :
+theorem step_failed {m : M} (hpi : m.pi = P.items.size) (hsi : m.si = -1) (hb : m.budget = 0) :
     step P s m = .ok (.failed, tick m) := by
   unfold step
-  have h1 : ¬ (m.pi < P.items.size) := by omega
-  simp only [h1, dite_false, hsi, if_true, pure, Except.pure, tick]
+  have hc : consumeBudget { m with steps := m.steps + 1 } = .ok (tick m) := consumeBudget_zero _ hb
+  simp only [hc, bind, Except.bind]
+  have h1 : ¬ ((tick m).pi < P.items.size) := by rw [tick_pi]; omega
+  simp only [h1, dite_false, tick_si, hsi, if_true, pure, Except.pure]
 
 theorem run_matched {m mf : M} (h : step P s m = .ok (.matched, mf)) (fuel : Nat) :
     run P s (fuel + 1) m = .ok (true, mf) := by
@@ -68,7 +73,7 @@ theorem run_of_outcome {A : Array Capture → Prop} {Z : Array Capture → LuaPa
     obtain ⟨m'', ⟨n, hn⟩, htbs, hA, hb⟩ := ho
     have h0 : trackback P.items.size m'' = { m'' with pi := P.items.size, si := -1 } := by
       unfold trackback; rw [htbs]
-    have hst := step_failed P s (m := trackback P.items.size m'') (by rw [h0]) (by rw [h0])
+    have hst := step_failed P s (m := trackback P.items.size m'') (by rw [h0]) (by rw [h0]) (by rw [trackback_budget]; exact hb)
     refine ⟨n + 1, tick (trackback P.items.size m''), by simp [tick_budget, trackback_budget, hb],
       by rw [tick_caps, trackback_caps]; exact hAsz _ hA, ?_, ?_⟩
     · intro fuel hle
@@ -264,7 +269,7 @@ theorem initM_clean (init : Int) : Clean (initM init 0) := by
 theorem matchFromStart_refines (pat : LuaPattern.Pat) (hp : PatRel P pat) (init : Nat) (hinit : init ≤ s.size) :
     ∃ N, ∀ fuel, N ≤ fuel →
       (matchFromStart P s fuel init 0).captures = (LuaPattern.findParsed pat s init).map toCaptures ∧
-      (matchFromStart P s fuel init 0).swallowedPanic = none ∧
+      (matchFromStart P s fuel init 0).escapedPanic = none ∧
       (matchFromStart P s fuel init 0).outOfFuel = false := by
   unfold matchFromStart findFromStart LuaPattern.findParsed
   have hgt : ¬ (init > s.size) := by omega
@@ -288,7 +293,7 @@ theorem matchFromStart_refines (pat : LuaPattern.Pat) (hp : PatRel P pat) (init 
 theorem matchGo_refines (pat : LuaPattern.Pat) (hp : PatRel P pat) (init : Nat) (hinit : init ≤ s.size) :
     ∃ N, ∀ fuel, N ≤ fuel →
       (matchGo P s fuel init 0).captures = (LuaPattern.scan pat s init (s.size - init)).map toCaptures ∧
-      (matchGo P s fuel init 0).swallowedPanic = none ∧
+      (matchGo P s fuel init 0).escapedPanic = none ∧
       (matchGo P s fuel init 0).outOfFuel = false := by
   unfold matchGo
   obtain ⟨N, mf, hcl, hrun⟩ := findLoop_spec P s pat hp (s.size - init) init (by omega)
